@@ -166,6 +166,7 @@ func cmdCheck(args []string) int {
 	if err != nil {
 		return fail(err.Error())
 	}
+	theCatalogue = loadCatalogue(*verif)
 	findings, err := loadFindings(filepath.Join(*verif, "known_findings.json"))
 	if err != nil {
 		return fail("known_findings.json: " + err.Error())
